@@ -47,7 +47,7 @@ def run(chk):
     r = chk.rng("cases")
     cases = pipefam.load_corpus("C03") + [gen.gen_pileup(r) for _ in range(n)]
     # groups far larger than any pile-up: hundreds of same-group elements, scans with ~100 hits
-    cases += [gen.gen_large_group(r, sz) for sz in ([700] if chk.tier == "quick" else [300, 700, 1500, 2600])]
+    cases += [gen.gen_large_group(r, sz) for sz in ([700, 2300] if chk.tier == "quick" else [300, 700, 1500, 2300, 2600, 4200])]
     # every fourth case runs in an output directory already used for another pair (same chromosome names) under the same
     # genome id, an id that extends it, or an unrelated one
     for i, c in enumerate(cases):
